@@ -198,6 +198,7 @@ MC_CFG = """SPECIFICATION Spec
 CHECK_DEADLOCK FALSE
 CONSTANTS
   NBlocks = 64
+  Full = %s
 INVARIANT PackRot
 INVARIANT PackTr
 INVARIANT RowTextInjective
@@ -216,7 +217,7 @@ def rand_style(rng):
 
 def run(ctx):
     rng = ctx.rng
-    ctx.model_check("mc/MC_Symop.tla", MC_CFG, name="MC_Symop", timeout=600)
+    ctx.model_check("mc/MC_Symop.tla", MC_CFG % ctx.pick("FALSE", "TRUE"), name="MC_Symop", timeout=1200)
     rows = table_rows()
     tab_codes = sorted({c for r in rows for c in r["ops"]})
     recipes = [{"k": "codec", "c": c, "src": "table"} for c in tab_codes]
